@@ -318,6 +318,7 @@ func runC17(c *Ctx) {
 	runC17Signed(c, rc[0].k, rc[0].c, rc[1].k, rc[1].c, rk1, rsaC1)
 	// ---- PKCS#12
 	runC17P12(c, rk1, rsaC1)
+	runC17P12Std(c)
 }
 
 type sdCheck struct {
